@@ -497,6 +497,188 @@ def run_dial(ctx):
                               "observed": res["results"][0]}})
 
 
+def judge(ctx, pol, pdump, c, r, kp="", extra=None):
+    """direct oracle for one call of ParseOrResolveBlocklisted under policy pol (the policy in force at that call);
+    returns (Gallina case term, info) or None.  kp prefixes the failure keys (history lane)."""
+    s, outb = unhx(c["s"]), unhx(r["out"])
+    info = {"policy_spec": pol, "policy": 0, "s": c["s"], "s_text": s.decode("latin1"), "script": c["script"],
+            "epoch": c["epoch"], "canon": c.get("canon", False),
+            "observed": {"out": outb.decode("latin1"), "lookup": r["lookup"], "queries": r["queries"]}}
+    if r.get("panic"):
+        ctx.count((c["policy"], c["s"]), kind="panic")
+        ctx.fail(kp + "panic", "ParseOrResolveBlocklisted panicked: %s" % r["panic"], info)
+        return None
+    host = unhx(r["host"]) if r["split_ok"] else None
+    if outb == b"":
+        kind = kp + "rejected/" + ("nosplit" if not r["split_ok"] else
+                              "dns-fail" if not r["resolve"]["ok"] else
+                              "no-ip" if r["resolve"]["ip"] == "" else "policy-or-port")
+    else:
+        kind = kp + "accepted/" + ("name" if r["queries"] else "literal")
+    ctx.count((pol, c["s"], c["script"] if r["queries"] else None), nontrivial=True, kind=kind)
+    # ---- direct oracle on the implementation's observables (independent of the Coq model)
+    if outb != b"":
+        parsed, why = py_parse_out(outb)
+        if parsed is None:
+            key = "accepted/" + why
+            ctx.fail(kp + key, "accepted covert %r returned as %r, which is not a literal IP:port (%s)%s"
+                     % (s, outb, why, "; net.Dial connects it to the local host" if why == "empty-host" else ""), info)
+        else:
+            ip, zone, port = parsed
+            if py_blocked(pol, ip):
+                fam = "v4-mapped" if (ip.version == 6 and ip.ipv4_mapped is not None) or b"ffff" in s.lower() else "v%d" % ip.version
+                ctx.fail(kp + "accepted/forbidden-ip/%s/%s" % ("allowlist" if pol["allow"] else "blocklist", fam),
+                         "accepted covert %r -> %r although the policy forbids %s" % (s, outb, ip), info)
+            dm = py_dom_match(pol, host)
+            if dm:
+                ctx.fail(kp + "accepted/domain-pattern", "accepted covert %r although its host matches a blocklisted "
+                         "domain pattern" % s, info)
+            # resolved once, and the returned literal needs no resolution
+            names = [q.split("/")[0] for q in r["queries"]]
+            if len(set(r["queries"])) != len(r["queries"]):
+                ctx.fail(kp + "resolved-twice", "the same DNS question was asked twice while checking %r: %s" % (s, r["queries"]), info)
+            if r["out_queries"] != 0:
+                ctx.fail(kp + "literal-needs-resolution", "the returned string %r caused DNS questions when used again" % outb, info)
+            re_out = unhx(r["out_reparsed"])
+            lit_host = OUT_RE.fullmatch(outb)
+            lit_host = lit_host.group(1) if lit_host.group(1) is not None else lit_host.group(2)
+            if re_out != outb and not py_dom_match(pol, lit_host):
+                ctx.fail(kp + "literal-not-stable", "the returned literal %r is not accepted unchanged after the name "
+                         "system changed (got %r)" % (outb, re_out), info)
+    # permitted canonical literal must be accepted unchanged
+    if c.get("canon"):
+        parsed, why = py_parse_out(s)
+        if parsed is not None and not py_blocked(pol, parsed[0]) and py_dom_match(pol, host or b"") is False:
+            if outb != s:
+                ctx.fail(kp + "permitted-literal-changed", "well-formed permitted %r was returned as %r" % (s, outb), info)
+            else:
+                ctx.cov["histogram"]["canon-unchanged"] = ctx.cov["histogram"].get("canon-unchanged", 0) + 1
+    # G1 observed: splittable strings are not IP literals
+    if r["split_ok"] and r["parse_whole"]:
+        ctx.broken("assumption-G1", "net.ParseIP accepts %r although SplitHostPort splits it" % s, info)
+    return (g_case(pdump, c, r), info)
+
+
+
+
+# ------------------------------------------------------------------ histories on one RegistrationManager
+def lit_ip(s):
+    parsed, _ = py_parse_out(s.encode() if isinstance(s, str) else s)
+    return parsed[0] if parsed else None
+
+
+def gen_histories(ctx):
+    """call sequences on ONE RegConfig: check s under P1; OnReload(P2); check s again (and other spellings of the same
+    address); reload back; ... plus ingest-level sequences with the dial recorder"""
+    rng = ctx.rng
+    quick = ctx.tier == "quick"
+    pols = list(FIXED_POLICIES) + list(DIAL_POLICIES)
+    nf = len(FIXED_POLICIES)
+    pairs = [(0, 1), (1, 0), (2, 1), (1, 2), (3, 4), (4, 3), (0, 4), (4, 0), (11, 1), (1, 11), (9, 8), (8, 9), (2, 0), (0, 2),
+             (6, 0), (0, 6), (7, 0), (0, 7), (5, 8), (8, 5), (2, 9), (3, 0)]
+    if quick:
+        pairs = pairs[:8] + rng.sample(pairs[8:], 5)
+    for _ in range(2 if quick else 60):
+        pairs.append((rng.randrange(nf), rng.randrange(nf)))
+    hists = []
+    for p1, p2 in pairs:
+        v4a, v6a = interesting_addrs(rng, {"block": pols[p1]["block"] + pols[p2]["block"], "allow": pols[p1]["allow"] + pols[p2]["allow"]})
+        cands = []
+        for a in v4a:
+            cands.append(("%s:80" % ipaddress.IPv4Address(a), "[::ffff:%s]:80" % ipaddress.IPv4Address(a)))
+        for a in v6a:
+            ip = ipaddress.IPv6Address(a)
+            if ip.ipv4_mapped is None:
+                cands.append(("[%s]:443" % ip.compressed, "[%s]:443" % ip.exploded))
+        differ = [c for c in cands if py_blocked(pols[p1], lit_ip(c[0])) != py_blocked(pols[p2], lit_ip(c[0]))]
+        same = [c for c in cands if c not in differ]
+        chosen = rng.sample(differ, min(len(differ), 3 if quick else 6)) + rng.sample(same, min(len(same), 1 if quick else 3))
+        strs = [c[0] for c in chosen] + ["h0.test:80", "h1.test:443"]
+        ops = [{"op": "check", "s": hx(x)} for x in strs]
+        ops.append({"op": "reload", "policy": p2})
+        ops += [{"op": "check", "s": hx(x)} for x in strs]
+        ops += [{"op": "check", "s": hx(c[1])} for c in chosen]            # another spelling of the same address
+        ops += [{"op": "check", "s": hx(strs[0])}] if strs else []          # the same string once more
+        ops.append({"op": "reload", "policy": p1})
+        ops += [{"op": "check", "s": hx(x)} for x in strs[:4]]
+        hists.append({"start": p1, "ops": ops, "script": base_script(rng)})
+    # ingest level: registration 1 naming X admitted, reload forbidding X's address, registration 2 naming X
+    d = nf
+    ing = [
+        (d + 0, ["127.0.0.2:PORT"], d + 1), (d + 0, ["rebind.test:PORT", "127.0.0.1:PORT"], d + 3), (d + 2, ["127.0.0.3:PORT", "127.0.0.1:PORT"], d + 4),
+        (d + 1, ["127.0.0.1:PORT", "127.0.0.2:PORT"], d + 2), (d + 0, ["[::ffff:127.0.0.3]:PORT", "127.1.2.3:PORT"], d + 1),
+        (d + 4, ["127.0.0.1:PORT"], d + 3),
+    ]
+    for start, coverts, other in ing:
+        ops = [{"op": "ingest", "s": hx(c)} for c in coverts]
+        ops.append({"op": "reload", "policy": other})
+        ops += [{"op": "ingest", "s": hx(c)} for c in coverts]
+        ops += [{"op": "ingest", "s": hx(coverts[0])}]
+        ops.append({"op": "reload", "policy": start})
+        ops += [{"op": "ingest", "s": hx(c)} for c in coverts]
+        hists.append({"start": start, "ops": ops, "script": DIAL_SCRIPT})
+    return pols, hists
+
+
+def run_histories(ctx, terms):
+    pols, hists = gen_histories(ctx)
+    rc, out, res = ctx.go_inpkg(".", PKG, DRV, "^TestVerifC06History$", {"policies": pols, "histories": hists}, timeout=900)
+    if res is None or len(res.get("results", [])) != len(hists):
+        ctx.broken("driver", "Go history driver did not produce results: %s" % out[-800:])
+        return
+    for hi, (h, rs) in enumerate(zip(hists, res["results"])):
+        cur = h["start"]
+        trail = ["start under policy %s" % pols[cur]]
+        for oi, (op, r) in enumerate(zip(h["ops"], rs)):
+            if r.get("panic"):
+                ctx.fail("history/panic", "history step panicked: %s" % r["panic"], {"history": h, "step": oi})
+                break
+            if op["op"] == "reload":
+                cur = op["policy"]
+                trail.append("OnReload(%s)" % pols[cur])
+                d = r["dump"]
+                if len(d["block"]) != len(pols[cur]["block"]) or len(d["allow"]) != len(pols[cur]["allow"]) or \
+                        d["allow_on"] != bool(pols[cur]["allow"]):
+                    # OnReload keeps enableCovertAllowlist as the new config says; a config without allowlist turns it off
+                    ctx.broken("history/reload-not-installed", "after OnReload the lists in force are %s, configured %s"
+                               % (d, pols[cur]), {"history": h, "step": oi})
+                ctx.count(("hist", hi, oi), nontrivial=True, kind="history/reload")
+                continue
+            pol = pols[cur]
+            if op["op"] == "check":
+                trail.append("check %r" % unhx(op["s"]).decode("latin1"))
+                c = {"policy": cur, "s": op["s"], "script": h["script"], "epoch": 0, "canon": False}
+                t = judge(ctx, pol, r["dump"], c, r["check"], kp="history/",
+                          extra={"history": list(trail), "note": "ONE RegConfig; the policy in force at this call is policy_spec"})
+                if t is not None:
+                    terms.append(t)
+            else:
+                x = r["ingest"]
+                prov, cov = unhx(x["provided"]), unhx(x["covert"])
+                trail.append("ingest registration with covert %r" % prov.decode("latin1"))
+                info = {"history": list(trail), "policy_in_force": pol, "observed": {k: x[k] for k in ("valid", "dialed", "dial_query")},
+                        "covert_after_ingest": cov.decode("latin1")}
+                ctx.count(("hist", hi, oi), nontrivial=True, kind="history/ingest-" + ("admitted" if x["valid"] else "rejected"))
+                if x.get("panic"):
+                    ctx.fail("history/panic", "ingest/Proxy panicked or hung: %s" % x["panic"], info)
+                    continue
+                if not x["valid"]:
+                    if x["dialed"]:
+                        ctx.fail("history/rejected-but-dialed", "a connection was made for a registration that is not valid", info)
+                    continue
+                parsed, why = py_parse_out(cov)
+                if parsed is None:
+                    ctx.fail("history/admitted-" + why, "admitted registration's covert %r is not a literal IP:port" % cov, info)
+                    continue
+                ip, zone, port = parsed
+                if py_blocked(pol, ip):
+                    ctx.fail("history/admitted-after-reload-forbids", "a registration naming %r was admitted and dialled (%s) although the "
+                             "policy installed by the last reload forbids %s" % (prov, x["dialed"], ip), info)
+                want = "%s:%d" % (("[%s]" % py_unmap(ip)) if py_unmap(ip).version == 6 else py_unmap(ip), port)
+                if x["dialed"] != [want]:
+                    ctx.fail("history/dialed-differs-from-checked", "recorder saw %s, the checked address was %s" % (x["dialed"], want), info)
+
+
 # ------------------------------------------------------------------ main
 def run(ctx):
     ctx.assumptions += [
@@ -518,7 +700,9 @@ def run(ctx):
     ]
     ctx.cov["rule"] = ("policies (fixed, shipped app_config.toml, random) x covert strings: every textual form of "
                        "addresses at and around each subnet boundary, names through a scripted resolver whose answers "
-                       "change after admission, malformed strings, ports, mutation fuzz; a case is non-trivial if "
+                       "change after admission, malformed strings, ports, mutation fuzz; call HISTORIES on one RegConfig / "
+                       "RegistrationManager (check, OnReload to another policy, check again, other spellings, reload back; "
+                       "ingest + dial before and after a reload that forbids the address); a case is non-trivial if "
                        "hash-distinct (counted per outcome class); plus ingest->Proxy runs with a dial recorder")
     ctx.coq_props(extra_dirs=["C07"])
     rc, out = ctx.coq_make(["C06/Examples.vo"])
@@ -558,64 +742,9 @@ def run(ctx):
 
     terms = []
     for c, r in zip(cases, res["results"]):
-        pol = policies[c["policy"]]
-        s, outb = unhx(c["s"]), unhx(r["out"])
-        info = {"policy_spec": pol, "policy": 0, "s": c["s"], "s_text": s.decode("latin1"), "script": c["script"],
-                "epoch": c["epoch"], "canon": c.get("canon", False),
-                "observed": {"out": outb.decode("latin1"), "lookup": r["lookup"], "queries": r["queries"]}}
-        if r.get("panic"):
-            ctx.count((c["policy"], c["s"]), kind="panic")
-            ctx.fail("panic", "ParseOrResolveBlocklisted panicked: %s" % r["panic"], info)
-            continue
-        host = unhx(r["host"]) if r["split_ok"] else None
-        if outb == b"":
-            kind = "rejected/" + ("nosplit" if not r["split_ok"] else
-                                  "dns-fail" if not r["resolve"]["ok"] else
-                                  "no-ip" if r["resolve"]["ip"] == "" else "policy-or-port")
-        else:
-            kind = "accepted/" + ("name" if r["queries"] else "literal")
-        ctx.count((pol, c["s"], c["script"] if r["queries"] else None), nontrivial=True, kind=kind)
-        # ---- direct oracle on the implementation's observables (independent of the Coq model)
-        if outb != b"":
-            parsed, why = py_parse_out(outb)
-            if parsed is None:
-                key = "accepted/" + why
-                ctx.fail(key, "accepted covert %r returned as %r, which is not a literal IP:port (%s)%s"
-                         % (s, outb, why, "; net.Dial connects it to the local host" if why == "empty-host" else ""), info)
-            else:
-                ip, zone, port = parsed
-                if py_blocked(pol, ip):
-                    fam = "v4-mapped" if (ip.version == 6 and ip.ipv4_mapped is not None) or b"ffff" in s.lower() else "v%d" % ip.version
-                    ctx.fail("accepted/forbidden-ip/%s/%s" % ("allowlist" if pol["allow"] else "blocklist", fam),
-                             "accepted covert %r -> %r although the policy forbids %s" % (s, outb, ip), info)
-                dm = py_dom_match(pol, host)
-                if dm:
-                    ctx.fail("accepted/domain-pattern", "accepted covert %r although its host matches a blocklisted "
-                             "domain pattern" % s, info)
-                # resolved once, and the returned literal needs no resolution
-                names = [q.split("/")[0] for q in r["queries"]]
-                if len(set(r["queries"])) != len(r["queries"]):
-                    ctx.fail("resolved-twice", "the same DNS question was asked twice while checking %r: %s" % (s, r["queries"]), info)
-                if r["out_queries"] != 0:
-                    ctx.fail("literal-needs-resolution", "the returned string %r caused DNS questions when used again" % outb, info)
-                re_out = unhx(r["out_reparsed"])
-                lit_host = OUT_RE.fullmatch(outb)
-                lit_host = lit_host.group(1) if lit_host.group(1) is not None else lit_host.group(2)
-                if re_out != outb and not py_dom_match(pol, lit_host):
-                    ctx.fail("literal-not-stable", "the returned literal %r is not accepted unchanged after the name "
-                             "system changed (got %r)" % (outb, re_out), info)
-        # permitted canonical literal must be accepted unchanged
-        if c.get("canon"):
-            parsed, why = py_parse_out(s)
-            if parsed is not None and not py_blocked(pol, parsed[0]) and py_dom_match(pol, host or b"") is False:
-                if outb != s:
-                    ctx.fail("permitted-literal-changed", "well-formed permitted %r was returned as %r" % (s, outb), info)
-                else:
-                    ctx.cov["histogram"]["canon-unchanged"] = ctx.cov["histogram"].get("canon-unchanged", 0) + 1
-        # G1 observed: splittable strings are not IP literals
-        if r["split_ok"] and r["parse_whole"]:
-            ctx.broken("assumption-G1", "net.ParseIP accepts %r although SplitHostPort splits it" % s, info)
-        terms.append((g_case(pd[c["policy"]], c, r), info))
+        t = judge(ctx, policies[c["policy"]], pd[c["policy"]], c, r)
+        if t is not None:
+            terms.append(t)
 
     for k in (3, len(cases) // 2, len(cases) - 1):
         c, r = cases[k], res["results"][k]
@@ -624,6 +753,11 @@ def run(ctx):
     ctx.require_kinds(["accepted/literal", "accepted/name", "rejected/nosplit", "rejected/dns-fail", "rejected/no-ip",
                        "rejected/policy-or-port", "canon-unchanged"])
 
+    th = time.time()
+    run_histories(ctx, terms)
+    ctx.cov["phase_s"]["go_history"] = round(time.time() - th, 1)
+    ctx.require_kinds(["history/reload", "history/accepted/literal", "history/rejected/policy-or-port", "history/ingest-admitted",
+                       "history/ingest-rejected"])
     t1 = time.time()
     mm = ctx.coq_mismatches("por", HEADER, [t for t, _ in terms], "chk", shard=250 if ctx.tier == "quick" else 700, need_vo=["C06/Run.vo"])
     ctx.cov["phase_s"]["coq_cases"] = round(time.time() - t1, 1)
@@ -632,8 +766,9 @@ def run(ctx):
         ctx.broken("correspondence", "model C06.Run.model and ParseOrResolveBlocklisted disagree on %d case(s); first: %r"
                    % (len(mm), terms[mm[0]][1]["s_text"]), terms[mm[0]][1])
 
-    ml = ctx.coq_mismatches("lk", HEADER, [t for t, _ in terms], "chk_lookup", shard=2500)
-    ctx.cov["lookup_flag_mismatches"] = None if ml is None else len(ml)   # statistics flag: informational only
+    if ctx.tier != "quick":
+        ml = ctx.coq_mismatches("lk", HEADER, [t for t, _ in terms], "chk_lookup", shard=2500)
+        ctx.cov["lookup_flag_mismatches"] = None if ml is None else len(ml)   # statistics flag: informational only
 
     # ---- the Go library functions the model re-states concretely
     std = gen_std(ctx, cases)
